@@ -4,15 +4,18 @@
       satisfies every AEAD hypothesis: Open(Seal) = id, length, ideal
       (Open succeeds only on the Seal output), key binding.
    2. With a small key universe (bool) and an injective toy HKDF / ECDH all
-      hypotheses of C11_handshake_agrees and C11_handshake_rejects_partial
+      hypotheses of C11_handshake_agrees and C11_handshake_rejects
       hold simultaneously; the theorems are instantiated and the conclusions
       are checked not to be trivial by evaluating concrete handshakes.
    3. A concrete replayed stream satisfies no_forgery, C11_tamper_rejected
-      applies to it and the read fails. *)
+      applies to it and the read fails.
+   5. C11_conn_stream_roundtrip instantiated; a concrete Conn run with a
+      chunked write cut short by the net.Conn, a Flush retry, the remainder
+      written, and reads in odd buffer sizes. *)
 From Coq Require Import List NArith ZArith Bool Lia.
 From Coq Require Import ZifyBool ZifyN ZifyNat.
-From LV Require Import Noise.Model Noise.Exec Noise.Proofs Noise.TamperProofs Noise.HsProofs
-     Noise.Props.
+From LV Require Import Noise.Model Noise.Spec Noise.Exec Noise.Proofs Noise.TamperProofs
+     Noise.HsProofs Noise.Props.
 Import ListNotations.
 Local Open Scope N_scope.
 
@@ -148,11 +151,8 @@ Definition e_pub (b : bool) : bool := b.
 Definition e_dh (a P : bool) : N := if xorb a P then 1 else 0.
 Definition e_ser (P : bool) : list N := (if P then 3 else 2) :: repeat 0 32.
 Definition e_parse (bs : list N) : option bool :=
-  match bs with
-  | 2 :: _ => Some false
-  | 3 :: _ => Some true
-  | _ => None
-  end.
+  if bytes_eqb bs (e_ser false) then Some false
+  else if bytes_eqb bs (e_ser true) then Some true else None.
 
 Lemma e_wv_wb : forall n, t_wv (t_wb n) = Some n. Proof. reflexivity. Qed.
 Lemma e_ser_len : forall p, length (e_ser p) = 33%nat. Proof. intros []; reflexivity. Qed.
@@ -169,11 +169,23 @@ Example ex_handshake_agrees :=
                        e_pub e_dh e_ser e_parse
                        e_wv_wb t_dec_enc t_enc_len e_ser_len e_parse_ser e_dh_comm.
 
+Lemma e_parse_inj : forall (a b : list N) (P : bool),
+    length a = 33%nat -> length b = 33%nat -> e_parse a = Some P -> e_parse b = Some P -> a = b.
+Proof.
+  assert (H : forall a P, e_parse a = Some P -> a = e_ser P).
+  { intros a P. unfold e_parse.
+    destruct (bytes_eqb a (e_ser false)) eqn:E1.
+    - intros H; inversion H; subst. apply bytes_eqb_eq. exact E1.
+    - destruct (bytes_eqb a (e_ser true)) eqn:E2; [| discriminate].
+      intros H; inversion H; subst. apply bytes_eqb_eq. exact E2. }
+  intros a b P _ _ Ha Hb. rewrite (H a P Ha), (H b P Hb). reflexivity.
+Qed.
+
 Example ex_handshake_rejects :=
-  C11_handshake_rejects_partial N wsym bool bool t_wb t_wv t_enc t_dec e_hkdf t_zero t_h0
-                                t_mixb t_mixc e_pub e_dh e_ser e_parse
-                                e_wv_wb t_ideal t_enc_key_inj t_enc_len e_ser_len e_parse_ser
-                                e_dh_comm e_dh_inj e_hkdf_inj.
+  C11_handshake_rejects N wsym bool bool t_wb t_wv t_enc t_dec e_hkdf t_zero t_h0
+                        t_mixb t_mixc e_pub e_dh e_ser e_parse
+                        e_wv_wb t_ideal t_enc_key_inj t_enc_len e_ser_len e_parse_ser
+                        e_dh_comm e_dh_inj e_hkdf_inj t_dec_enc e_parse_inj.
 
 (* the conclusions are not trivially true: the handshake does run, the keys
    are non-zero and differ per direction; dialling the other key fails at act
@@ -194,6 +206,48 @@ Proof. vm_compute. repeat split; discriminate. Qed.
 
 Example ex_hs_wrong_key : e_hs (e_pub true) = Err EMac.
 Proof. vm_compute. reflexivity. Qed.
+
+(* act three: the honest initiator's act three IS wb 0 :: act3_ct ++ act3_tag
+   of its static key, computed from the responder's state after act two (so
+   clauses (e)-(g) of C11_handshake_rejects speak about the real act); with one
+   byte of the final MAC / of the encrypted key changed it is refused *)
+Definition e_r2_a3 : option (machine N wsym bool bool * list wsym) :=
+  match gen_act_one N wsym bool bool t_wb t_enc e_hkdf t_mixb t_mixc e_pub e_dh e_ser
+          (new_initiator N wsym bool bool t_zero t_h0 t_mixb e_ser true (e_pub false)) true with
+  | Ok (a1, i1) =>
+    match recv_act_one N wsym bool bool t_wv t_dec e_hkdf t_mixb t_mixc e_dh e_ser e_parse
+            (new_responder N wsym bool bool t_zero t_h0 t_mixb e_pub e_ser false) a1 with
+    | Ok r1 =>
+      match gen_act_two N wsym bool bool t_wb t_enc e_hkdf t_mixb t_mixc e_pub e_dh e_ser r1 false with
+      | Ok (a2, r2) =>
+        match recv_act_two N wsym bool bool t_wv t_dec e_hkdf t_mixb t_mixc e_dh e_ser e_parse i1 a2 with
+        | Ok i2 =>
+          match gen_act_three N wsym bool bool t_wb t_enc e_hkdf t_mixc e_pub e_dh e_ser i2 with
+          | Ok (a3, _) => Some (r2, a3)
+          | Err _ => None
+          end
+        | Err _ => None
+        end
+      | Err _ => None
+      end
+    | Err _ => None
+    end
+  | Err _ => None
+  end.
+
+Example ex_act3_shape :
+  match e_r2_a3 with
+  | Some (r2, a3) =>
+    m_local_eph _ _ _ _ r2 = Some false /\
+    a3 = t_wb 0 :: act3_ct N wsym bool bool t_enc e_hkdf t_mixc e_ser r2 (e_pub true)
+                ++ act3_tag N wsym bool bool t_enc e_hkdf t_mixc e_dh e_ser r2 false (e_pub true) /\
+    (exists r3, recv_act_three N wsym bool bool t_wv t_dec e_hkdf t_mixc e_dh e_parse r2 a3 = Ok r3) /\
+    recv_act_three N wsym bool bool t_wv t_dec e_hkdf t_mixc e_dh e_parse r2 (set_nth 65 WX a3) = Err EMac /\
+    recv_act_three N wsym bool bool t_wv t_dec e_hkdf t_mixc e_dh e_parse r2 (set_nth 1 WX a3) = Err EMac /\
+    recv_act_three N wsym bool bool t_wv t_dec e_hkdf t_mixc e_dh e_parse r2 (set_nth 49 WX a3) = Err EMac
+  | None => False
+  end.
+Proof. vm_compute. repeat split; try reflexivity. eexists; reflexivity. Qed.
 
 (* ---------------- 3. a replayed frame ---------------- *)
 Definition ex_msgs : list (list N) := [[1; 2]; [3]].
@@ -257,3 +311,39 @@ Proof.
   do 5 eexists. split; [vm_compute; reflexivity |]. split; [vm_compute; reflexivity |].
   cbn. intros [H | [H | []]]; discriminate.
 Qed.
+
+(* ---------------- 5. brontide.Conn ---------------- *)
+Example ex_conn_stream_roundtrip :=
+  C11_conn_stream_roundtrip N wsym t_enc t_dec t_hkdf t_enc_len t_dec_enc.
+
+(* Conn.Write of 65540 bytes: the net.Conn takes the first header and 30 bytes
+   of the first body, then times out (count 30, error); Conn.Flush sends the
+   rest of the record (count 65505); the caller writes the remaining 5 bytes,
+   then 3 more.  Two Seal calls before a key rotation at the start.  The peer
+   reads with buffer sizes 10, 70000, 70000, 2, 70000, 1: it gets 10 bytes,
+   the remaining 65525 of the first record (never more than one record), the
+   5-byte record, 2 bytes, 1 byte, and io.EOF. *)
+Definition ex_b1 : list N := seq_bytes (N.to_nat 65540) 0.
+Definition ex_cops : list cop :=
+  [CoWrite ex_b1 [(100, false); (30, false)]; CoFlush [];
+   CoWrite (skipN 65535 ex_b1) []; CoWrite [1; 2; 3] []].
+Definition cerr_eqb (a b : cerr) : bool := N.eqb (cerr_code a) (cerr_code b).
+Fixpoint results_eqb (a b : list (N * cerr)) : bool :=
+  match a, b with
+  | [], [] => true
+  | (n, e) :: a', (n', e') :: b' => N.eqb n n' && cerr_eqb e e' && results_eqb a' b'
+  | _, _ => false
+  end.
+Definition ex_conn_check : bool :=
+  let r := crun_all N wsym t_enc t_hkdf ex_c0 ex_cops in
+  let outs := fst (conn_reads N wsym t_dec t_hkdf [10; 70000; 70000; 2; 70000; 1]
+                              (mkCR N wsym ex_c0 [] (cn_wire N wsym r))) in
+  results_eqb (cn_results N wsym r) [(30, CWriter); (65505, CNone); (5, CNone); (3, CNone)] &&
+  bytes_eqb (map (@len N) (cn_msgs N wsym r)) [65535; 5; 3] &&
+  N.eqb (len (sn_hdr (cn_snd N wsym r)) + len (sn_body (cn_snd N wsym r))) 0 &&
+  N.eqb (cs_epoch (sn_cs (cn_snd N wsym r))) 1 &&
+  bytes_eqb (map (fun o => match o with Ok p => len p + 1 | Err _ => 0 end) outs)
+            [11; 65526; 6; 3; 2; 0] &&
+  bytes_eqb (delivered outs) (ex_b1 ++ [1; 2; 3]).
+Example ex_conn_run : ex_conn_check = true.
+Proof. vm_compute. reflexivity. Qed.
